@@ -143,11 +143,16 @@ pub fn eval_program(pr: &Printed, with_comment_gap: Option<usize>, opts: &[Opt])
     // perturbations of the canonical text itself: only white space differs, so formatting must
     // give back the canonical text - and must not answer `null` unless nothing changes
     if let Some(c) = &canon {
+        // (the last one: the same tokens spread out widely, ten blanks between any two)
+        let wide: String = pr.toks.iter().map(|t| t.text.clone()).collect::<Vec<_>>().join("          ");
         let mut variants: Vec<String> = vec![c.trim_end_matches('\n').to_string(), format!("{}\n", c), format!("{}  ", c), format!("\n{}", c), format!("{}\t\n", c.trim_end_matches('\n'))];
         if let Some(i) = c.find(' ') {
             let mut v = c.clone();
             v.insert(i, ' ');
             variants.push(v);
+        }
+        if with_comment_gap.is_none() {
+            variants.push(wide);
         }
         for v in variants {
             match formatted(&v, &[DEFAULT_OPT]) {
